@@ -422,6 +422,20 @@ func evGenProto(t *rapid.T, version string) evProto {
 			p.StateKey = &sk
 		}
 	}
+	// occasionally give ANY type an unusual state key shape (none / "" / other): e.g. a non-state
+	// event of type m.room.create, a member event with an empty state key
+	if rapid.IntRange(0, 7).Draw(t, "oddStateKey") == 0 {
+		switch rapid.IntRange(0, 2).Draw(t, "oddStateKeyKind") {
+		case 0:
+			p.StateKey = nil
+		case 1:
+			sk := ""
+			p.StateKey = &sk
+		default:
+			sk := "x" + jgenString(t, "osk")
+			p.StateKey = &sk
+		}
+	}
 	if p.isV12Create() {
 		p.RoomID = ""
 	}
